@@ -137,7 +137,7 @@ RStale(S, i) == S.L[i].n <= S.rfin[S.L[i].c]
 InWindow(S, i) == S.L[i].n - (S.rfin[S.L[i].c] + 1) < Window
 Poolable(S, i) == ~RHas(S, i) /\ InWindow(S, i)
 
-RefKnown(S, c, n) == n = 0 \/ S.rfin[S.ref[c][n].e] >= S.ref[c][n].m
+RefKnown(S, c, n) == IF n = 0 THEN TRUE ELSE S.rfin[S.ref[c][n].e] >= S.ref[c][n].m
 
 \* [K2] a pooled snapshot enters the head round / accepts the node
 CanAdmit(S, i) ==
@@ -172,6 +172,22 @@ Deliver(S, sent) ==
     LET P == { sent[k] : k \in DOMAIN sent } IN
     [S EXCEPT !.rpool = S.rpool \cup { i \in P : Poolable(S, i) },
               !.dropped = S.dropped \/ \E i \in P : ~RHas(S, i) /\ ~InWindow(S, i)]
+
+\* the remote learns a snapshot from another peer: delivery, closing of the head round if the snapshot
+\* opens the next one, admission - fused into one step (other peers' deliveries that wait in the pool
+\* are not kept)
+CanLearn(S, i) ==
+    LET c == S.L[i].c
+        n == S.L[i].n IN
+    /\ ~RHas(S, i)
+    /\ \/ n = S.rfin[c] + 1 /\ RefKnown(S, c, n)
+       \/ /\ S.rfin[c] >= 0 /\ n = S.rfin[c] + 2
+          /\ RoundPos(S.L, c, n - 1) \subseteq S.rcache
+          /\ RefKnown(S, c, n)
+Learnt(S, i) ==
+    LET c  == S.L[i].c
+        S1 == IF S.L[i].n = S.rfin[c] + 2 THEN DoClose(S, c) ELSE S IN
+    DoAdmit([S1 EXCEPT !.rpool = S1.rpool \cup {i}], i)
 
 \* the remote learns of rounds the local node does not have yet
 CanAhead(S, c, maxr) ==
